@@ -115,6 +115,24 @@ Proof.
     + apply Rle_div_l; lra.
 Qed.
 
+(* the complex-n2 branch (Liou 5.4.1.3) continues the real law: with a vanishing imaginary part it IS the real branch *)
+Lemma snell_complex_real_limit n1 n2 t : 0 < n1 -> 0 < n2 -> 0 <= t <= 90 -> n1 * sin (t * PI / 180) <= n2 ->
+  snell_complex_n2 n1 n2 0 t = snell n1 n2 t.
+Proof.
+  intros H1 H2 Ht Htot. unfold snell_complex_n2, snell. cbv zeta.
+  pose proof (sin_rad_range t Ht) as Hs. set (s := sin (t * PI / 180)) in *.
+  assert (Hm : 0 < n2 / n1) by (apply Rdiv_lt_0_compat; lra).
+  assert (Hsm : s <= n2 / n1) by (apply Rle_div_r; lra).
+  assert (Hz : (0 / n1) ^ 2 = 0) by (unfold Rdiv; rewrite Rmult_0_l; ring).
+  rewrite Hz.
+  replace (((n2 / n1) ^ 2 - 0 - s * s) ^ 2 + 4 * (n2 / n1) ^ 2 * 0) with (((n2 / n1) ^ 2 - s * s) ^ 2) by ring.
+  assert (Hd : 0 <= (n2 / n1) ^ 2 - s * s) by nra.
+  rewrite <- (Rsqr_pow2 ((n2 / n1) ^ 2 - s * s)). rewrite sqrt_Rsqr by exact Hd.
+  replace (((n2 / n1) ^ 2 - 0 + s * s + ((n2 / n1) ^ 2 - s * s)) / 2) with ((n2 / n1) ^ 2) by (field; lra).
+  rewrite <- (Rsqr_pow2 (n2 / n1)). rewrite sqrt_Rsqr by lra.
+  f_equal. f_equal. f_equal. field. lra.
+Qed.
+
 (* ---------- Fresnel (real refractive indices) ---------- *)
 Lemma cos_rad_range t : 0 <= t <= 90 -> 0 <= cos (t * PI / 180).
 Proof. intros H. pose proof PI_RGT_0. apply cos_ge_0.
